@@ -157,6 +157,32 @@ example : Model.fit Family.frank (fun _ => (-3 : ℝ)) ⟨0, 1, 0, 1, -1/2, fals
     invalidThetas, Gen.Frank.thetaLower, Gen.Frank.thetaUpper, Gen.Frank.invalidThetas,
     Bound.leVal, Bound.valLe]
 
+/-- Concretely, for 0 < τ < 1 both extra classes are present, Clayton with θ = 2τ/(1−τ) and Gumbel with
+    θ = 1/(1−τ) (the generated closed forms), in this order. -/
+theorem candidates_closed_form (solve : ℝ → ℝ) (τ : ℝ) (h0 : 0 < τ) (h1 : τ < 1) :
+    extraCandidates solve τ Gen.SelectCopula.extraFamilies =
+      .ok [⟨.clayton, τ, .fin (2 * τ / (1 - τ))⟩, ⟨.gumbel, τ, .fin (1 / (1 - τ))⟩] := by
+  have hne : τ ≠ 1 := ne_of_lt h1
+  have hpos : 0 < 1 - τ := by linarith
+  have hc : 0 < 2 * τ / (1 - τ) := div_pos (by linarith) hpos
+  have hg : 1 ≤ 1 / (1 - τ) := by
+    rw [le_div_iff₀ hpos]; linarith
+  have hg' : 1 ≤ (1 - τ)⁻¹ := by simpa [one_div] using hg
+  simp [extraCandidates, Gen.SelectCopula.extraFamilies, tryCandidate, computeThetaFam,
+    Gen.Clayton.computeTheta, Gen.Gumbel.computeTheta, checkThetaB, checkTheta, thetaLower, thetaUpper,
+    invalidThetas, Gen.Clayton.thetaLower, Gen.Clayton.thetaUpper, Gen.Clayton.invalidThetas,
+    Gen.Gumbel.thetaLower, Gen.Gumbel.thetaUpper, Gen.Gumbel.invalidThetas, Bound.leVal, Bound.valLe,
+    hne, hc.le, hc.ne', hg']
+
+/-- At τ = 1 Gumbel's calibration raises `ValueError` and the class is absent; Clayton is kept with
+    θ = +∞ (`check_theta` accepts `inf`). -/
+theorem candidates_tau_one (solve : ℝ → ℝ) :
+    extraCandidates solve (1 : ℝ) Gen.SelectCopula.extraFamilies =
+      .ok [⟨.clayton, 1, .posInf⟩] := by
+  simp [extraCandidates, Gen.SelectCopula.extraFamilies, tryCandidate, computeThetaFam,
+    Gen.Clayton.computeTheta, Gen.Gumbel.computeTheta, checkThetaB, thetaUpper,
+    Gen.Clayton.thetaUpper]
+
 /-- **Index safety** at ℝ: for every non-empty data list and every strictly increasing grid of at
     least `steps` points `_compute_empirical` does not raise; `z_right[k]` is in range (the list holds
     exactly `k` elements before the append, because the right-tail count is non-increasing along the
